@@ -11,7 +11,7 @@ PROP = "C18"
 LEVEL = "exploration"
 ENGINE = "XY"
 N = {"quick": 130, "thorough": 5000}
-TIME = {"quick": 50, "thorough": 540}
+TIME = {"quick": 300, "thorough": 540}
 RULE = ("Random tabular configurations: 50-160 rows, business or calendar days, X shifted +-15 days and +-10 rows against Y, up to 3 X "
         "rows dropped, NaNs in both, 1-4 features, 1-3 assets, window {1,2,3,7,15,30}, stride {none,1,2,3,5}, transformer "
         "{none,z-score,yeo-johnson}, clip {0.5,2,5}, spread {0,2e-4,1e-2}, NYSE/LSE calendars, start/end bounds, late folds (warm-up "
@@ -25,7 +25,7 @@ ASSUMPTIONS = ["env.X is by definition the published transformed table; tables w
                "(3 + 2*window days) are not 'daily or finer' and are not generated",
                "a configuration with too little data may be refused at construction (counted as config-rejected)"]
 REQUIRED = ["C18:observation", "C18:bounds", "C18:step-date", "C18:quotes", "C18:rate", "C18:full-window", "C18:published-table"]
-REQUIRED_CATS = ["fold-after-holiday-cluster", "rate-off-price-dates", "window>1", "stride", "late-fold", "calendar:LSE", "calendar:NYSE", "transformer:None", "transformer:z-score",
+REQUIRED_CATS = ["last-date-is-a-holiday", "fold-after-holiday-cluster", "rate-off-price-dates", "window>1", "stride", "late-fold", "calendar:LSE", "calendar:NYSE", "transformer:None", "transformer:z-score",
                  "transformer:yeo-johnson"]
 TECHNIQUE = "runtime monitoring: observations, quotes and step dates of real episodes compared at every call with the tables the environment was given"
 LEVEL_TEXT = ("Exploration over generated table shapes and options; at every call of every episode the observation, the traded quotes, "
@@ -83,6 +83,20 @@ def case(ctx, i, tier):
         kw["start"] = dY[r.randint(0, n // 3)]
     if r.random() < 0.3:
         kw["end"] = dY[r.randint(2 * n // 3, n - 1)]
+    if not around_new_year and r.random() < 0.3:
+        # the last usable date (the `end` argument, or the last row of Y) is itself an exchange holiday that
+        # has a row in the table
+        late_h = [t for t in dY[n // 2:] if t in hol(cal)]
+        if late_h:
+            h = r.choice(late_h)
+            if r.random() < 0.5:
+                kw["end"] = h
+            else:
+                kw.pop("end", None)
+                Y = Y.loc[:h]
+                n = len(Y)
+                dY = Y.index
+            ctx.cat("last-date-is-a-holiday")
     folds = None
     if r.random() < 0.4:
         a = dY[r.randint(n // 3, n // 2)]
